@@ -210,9 +210,13 @@ func genCase(t *rapid.T) Case {
 			}
 		} else {
 			var spell string
-			switch rapid.IntRange(0, 3).Draw(t, "idmode") {
+			switch rapid.IntRange(0, 4).Draw(t, "idmode") {
 			case 0:
 				id = int64(rapid.IntRange(1, 40).Draw(t, "idsmall"))
+				spell = fmt.Sprint(id)
+			case 4:
+				// small negative ids next to implicitly numbered fields (non-strict auto-assignment goes -1, -2, ...)
+				id = -int64(rapid.IntRange(1, 6).Draw(t, "idneg"))
 				spell = fmt.Sprint(id)
 			default:
 				id, spell = genInt(t, fmt.Sprintf("id%d", i))
